@@ -102,8 +102,8 @@ def random_lens(rnd, nsurf=None, kinds=("standard",), mirrors=False, tilts=False
             in_glass = material != "air"
         kw["material"] = material
         t = rnd.uniform(0.5, 12.0) if in_glass else rnd.uniform(0.5, 40.0)
-        if rnd.random() < 0.05:
-            t = 0.0
+        # (no zero gaps: two differently curved surfaces at zero separation cross inside
+        # the beam, which is not a physical lens)
         kw["thickness"] = sign * t
         if tilts and rnd.random() < 0.35:
             meta["tilted"] = True
